@@ -7,6 +7,11 @@ ROOT = os.path.dirname(os.path.dirname(os.path.abspath(__file__)))
 
 # id -> (category, technique, level text, level note, design ref)
 CHECKS = {
+    "C16": ("model_checking",
+            "TLA+ model of threads as interleaved single-cell accesses checked by TLC over all schedules + TLC-enumerated thread programs run on real threads + ThreadSanitizer stress runs",
+            "TLC explores every interleaving of 2 (quick) or 3 (thorough) threads, each performing lookups expanded into the single-cell reads of their footprint and writes to disjoint logical coordinates, over every storage order and interpolator, and checks RaceFree, InBounds and Deterministic; the programs are run on real threads released together and compared with the specification's sequential results, and T in {2,4,8,16} threads with shared and per-thread views run under ThreadSanitizer with per-thread digests equal to the sequential run.",
+            "The no-hidden-shared-state premise (no static, mutable or thread-local state behind at()) is monitored by ThreadSanitizer on the executions performed, not proved. Trusted: TLC, g++ 12, TSan runtime.",
+            "DESIGN.md section 4, C16"),
     "C02": ("model_checking",
             "TLA+ denotation Eval (one clause per layer, mentioning only its own configuration and Eval of the rest) checked by TLC over an enumerated program space + one generated C++ program per stack compared exactly with Eval",
             "TLC enumerates stacks from the layer grammar (one per grammar-adjacent pair of layer kinds with N and M rotating independently over 1..4, plus seeded stacks to depth 5), checks well-kindedness, definedness and the one-line law of the outermost layer, and emits every stack with the values Eval prescribes at every in-domain coordinate of a dyadic grid; each stack becomes a translation unit that builds the real stack with pairwise distinct configuration values and compares both lookup forms exactly, under assertions + ASan/UBSan.",
